@@ -97,7 +97,7 @@ func safeIdentifier(name string) string {
 			return `"` + strings.ReplaceAll(name, `"`, `""`) + `"`
 		}
 	}
-	if reservedWords.IsReserved(name) {
+	if reservedWords.IsReserved(name) || tokenizerKeywords[strings.ToUpper(name)] {
 		// a reserved word only reads back as a name when quoted
 		return `"` + name + `"`
 	}
@@ -106,6 +106,19 @@ func safeIdentifier(name string) string {
 
 // reservedWords classifies words that cannot be written as bare identifiers.
 var reservedWords = keywords.New(keywords.DialectGeneric, true)
+
+// tokenizerKeywords are the words the tokenizer (keywordTokenTypes) or the
+// parser's token conversion type as keywords although the keyword table does not
+// list them as reserved: written bare they do not read back as identifiers.
+var tokenizerKeywords = map[string]bool{
+	"ALL": true, "AUTOINCREMENT": true, "AUTO_INCREMENT": true, "COLLATE": true, "DATABASES": true,
+	"DEFAULT": true, "DELETE": true, "DESCRIBE": true, "DISTINCT": true, "EXCLUDE": true,
+	"FOREIGN": true, "GROUPS": true, "HASH": true, "ILIKE": true, "INSERT": true, "INTO": true,
+	"KEY": true, "LAST": true, "LESS": true, "LIST": true, "MATERIALIZED": true, "MAXVALUE": true,
+	"NULLS": true, "PRIMARY": true, "RECURSIVE": true, "REFERENCES": true, "SHOW": true,
+	"TABLES": true, "TABLESPACE": true, "THAN": true,
+	"UNIQUE": true, "UPDATE": true,
+}
 
 // safeName quotes an object name or alias that needs it.
 func safeName(name string) string {
